@@ -17,5 +17,5 @@ CONSTANTS
   Ops = {"insert", "remove", "clear"}
   TickOn = TRUE
   MaxNow = 10
-INVARIANTS UsedIsSum Bounded Agree Conservation NeverTwice NothingLost ResidentOwned IndexExact NoOrphan MetricsLaws
+INVARIANTS UsedIsSum Bounded Agree Conservation NeverTwice NothingLost ResidentOwned IndexExact NoOrphan MetricsLaws MetricsCounts NoLoss CondNeverCreates ClearEmpties ChargeFormula
 CHECK_DEADLOCK FALSE
